@@ -73,5 +73,12 @@ Proof. exact fault_atomic_partial_lemma. Qed.
 Theorem fault_atomic : fault_atomic_statement fdopen_cleans.
 Proof. exact fault_atomic_fixed_lemma. Qed.
 
+(* the EEXIST retry loop of _GD_MakeTempFile: failed exclusive creations put
+   in front of any trace leave every state of that trace unchanged, so all the
+   theorems above hold for flushes that had to try several temporary names *)
+Theorem eexist_retry_transparent : forall d names tr st j,
+  crash (failed_creats d names ++ tr) j st = crash tr (j - length names) st.
+Proof. exact eexist_retry_lemma. Qed.
+
 Example hypotheses_satisfiable : exists frs st, scen_ok frs st /\ 1 < total_len frs /\ at_fdopen frs 0 = false.
 Proof. exact scenario_example. Qed.
